@@ -61,6 +61,10 @@ pub struct Case {
     /// that lock: only phase A runs)
     #[serde(default)]
     pub lock_host: u8,
+    /// the holder of phase B is started with -v / -vv / -vvv (0 = none): what it logs must not
+    /// change what it holds
+    #[serde(default)]
+    pub holder_verbosity: u8,
 }
 
 fn api() -> impl Strategy<Value = Api> {
@@ -82,8 +86,9 @@ pub fn strategy() -> impl Strategy<Value = Case> {
         vec((api(), 110u64..400), 0..=2),
         api(),
         prop_oneof![8 => Just(0u8), 4 => Just(1u8), 4 => Just(2u8), 2 => Just(3u8), 2 => Just(4u8), 1 => Just(5u8)],
+        prop_oneof![3 => Just(0u8), 1 => Just(1u8), 1 => Just(2u8), 1 => Just(3u8)],
     )
-        .prop_map(|(race, holder, termination, contenders, late, after, lock_host)| Case {
+        .prop_map(|(race, holder, termination, contenders, late, after, lock_host, holder_verbosity)| Case {
             race,
             holder,
             termination,
@@ -91,6 +96,7 @@ pub fn strategy() -> impl Strategy<Value = Case> {
             late,
             after,
             lock_host,
+            holder_verbosity,
         })
 }
 
@@ -406,7 +412,14 @@ fn check_once(case: &Case, w: usize) -> CheckResult {
         // the holder is paused inside its critical section, right after it got the lock guard
         henv.push(("MRV_POINTS", format!("lock.held=delay:{}", delay_ms)));
     }
-    let mut holder = env.mr_spawn(&holder_api.args(), &henv);
+    let mut hargs: Vec<&str> = match case.holder_verbosity {
+        1 => vec!["-v"],
+        2 => vec!["-vv"],
+        3 => vec!["-vvv"],
+        _ => vec![],
+    };
+    hargs.extend(holder_api.args());
+    let mut holder = env.mr_spawn(&hargs, &henv);
     let holder_pid = holder.pid;
     // wait until the holder is provably inside
     let t0 = Instant::now();
@@ -569,6 +582,7 @@ fn check_once(case: &Case, w: usize) -> CheckResult {
     let holders_b = check_exclusion(&points, killed, jitter.max_ns())?;
     Ok(CaseInfo::new(overlapped >= 1)
         .class(&format!("holder={:?}", case.holder).replace("Delayed(", "delayed-").replace(')', ""))
+        .class_if(case.holder_verbosity > 0, &format!("holder-verbosity={}", case.holder_verbosity))
         .class(&format!("termination={:?}", case.termination))
         .class(&format!("contenders={}", case.contenders.len().min(4)))
         .class_if(!holder_still_inside, "holder-left-early(not judged)")
